@@ -160,6 +160,8 @@ def cond_flow_tol(net):
         worst = max(worst, u)
     if "pipe" in net and len(net.pipe):
         for idx, r in net.pipe.iterrows():
+            if "res_pipe" not in net or idx not in net.res_pipe.index:
+                continue
             m = net.res_pipe.at[idx, "mdot_from_kg_per_s"]
             d = r.inner_diameter_mm / 1e3
             a = math.pi * d * d / 4
@@ -168,6 +170,8 @@ def cond_flow_tol(net):
     for t in ("valve", "heat_exchanger"):
         if t in net and len(net[t]):
             for idx, r in net[t].iterrows():
+                if "res_" + t not in net or idx not in net["res_" + t].index:
+                    continue
                 m = net["res_" + t].at[idx, "mdot_from_kg_per_s"]
                 d = r.inner_diameter_mm / 1e3
                 a = math.pi * d * d / 4
@@ -175,7 +179,7 @@ def cond_flow_tol(net):
                 upd(r.loss_coefficient / (2 * rho_at(j) * a * a * 1e5), m)
     if "press_control" in net and len(net.press_control):
         for idx, r in net.press_control.iterrows():
-            if not r.control_active:
+            if not r.control_active and "res_press_control" in net and idx in net.res_press_control.index:
                 a = math.pi * 0.01 / 4
                 upd(r.loss_coefficient / (2 * rho_at(r.from_junction) * a * a * 1e5), net.res_press_control.at[idx, "mdot_from_kg_per_s"])
     return worst
